@@ -33,8 +33,16 @@ CONSTANTS
 
 Sets == {"int", "fg", "bg"}
 
-\* canonical (lower-case) form of the names used by the configurations
-Canon(n) == CASE n = "A" -> "a" [] n = "B" -> "b" [] n = "Ab" -> "ab" [] n = "aB" -> "ab" [] n = "AB" -> "ab" [] OTHER -> n
+\* canonical (lower-case) form of the names used by the configurations; single letters and "x<letter>"
+\* names (the alphabet configuration) are folded letter by letter
+Upper == "ABCDEFGHIJKLMNOPQRSTUVWXYZ"
+Lower == "abcdefghijklmnopqrstuvwxyz"
+Pos(c) == IF \E i \in 1..26 : SubSeq(Upper, i, i) = c THEN CHOOSE i \in 1..26 : SubSeq(Upper, i, i) = c ELSE 0
+Fold(c) == IF Pos(c) > 0 THEN SubSeq(Lower, Pos(c), Pos(c)) ELSE c
+Canon(n) == CASE n = "A" -> "a" [] n = "B" -> "b" [] n = "Ab" -> "ab" [] n = "aB" -> "ab" [] n = "AB" -> "ab"
+              [] Len(n) = 1 -> Fold(n)
+              [] Len(n) = 2 /\ SubSeq(n, 1, 1) = "x" -> "x" \o Fold(SubSeq(n, 2, 2))
+              [] OTHER -> n
 
 VARIABLES
   regs,     \* [id -> [set, name, body, arg]] for the registrations currently in force
